@@ -210,7 +210,13 @@ func cmdLoadHist(args []string) {
 			// (asked whatever the read-back says: a root that did not take a refused load back shows it here too)
 			if *intro && st.Intro != nil && okMatches {
 				for _, inc := range []bool{true, false} {
+					before := sch.PseudoTypes
 					view, ierrs := sch.IntroView(root, inc)
+					if sch.PseudoTypes > before && inc {
+						cs["aspect"] = "intro"
+						rep.Mismatch(vh.Mismatch{Case: copyCase(cs), Step: si + 1, Known: "SchemaBlockListedAsType",
+							What: "intro: __schema { types } lists an entry that is no type of the schema (the schema block, as OBJECT \"schema\")"})
+					}
 					exp := st.Intro.Current
 					if inc {
 						exp = st.Intro.All
@@ -228,11 +234,21 @@ func cmdLoadHist(args []string) {
 						break
 					}
 				}
-				// __type on an unknown name is null
-				r := root.ResolveString(`{ __type(name: "NoSuchTypeAnywhere") { name } }`, "", nil)
-				if d, _ := r["data"].(map[string]interface{}); d == nil || d["__type"] != nil || r["errors"] != nil {
-					cs["aspect"] = "intro"
-					rep.Mismatch(vh.Mismatch{Case: copyCase(cs), Step: si + 1, What: fmt.Sprintf("intro: __type on an unknown name is not null: %v", r)})
+				// __type on an unknown name is null: a name nothing has, the empty name, the names of the directives (they are
+				// no types)
+				unknown := []string{"NoSuchTypeAnywhere", ""}
+				for _, d := range root.Directives() {
+					if root.GetType(d.Name()) == d { // (unless a type has that name too)
+						unknown = append(unknown, d.Name())
+					}
+				}
+				for _, un := range unknown {
+					r := root.ResolveString(fmt.Sprintf(`{ __type(name: %q) { name kind } }`, un), "", nil)
+					if d, _ := r["data"].(map[string]interface{}); d == nil || d["__type"] != nil || r["errors"] != nil {
+						cs["aspect"] = "intro"
+						rep.Mismatch(vh.Mismatch{Case: copyCase(cs), Step: si + 1, What: fmt.Sprintf("intro: __type on the unknown name %q is not null: %v", un, r)})
+						break
+					}
 				}
 			}
 			if *requests && err == nil && len(diffs) == 0 {
